@@ -4,8 +4,6 @@ use crate::core::*;
 use crate::gen::*;
 use crate::source::Source;
 use crate::tables;
-use lucid_suggest_core::tokenization::tokenize_record;
-use lucid_suggest_core::*;
 use serde_json::{json, Value};
 
 #[derive(Clone, Debug, Hash)]
@@ -40,13 +38,14 @@ fn word_from(src: &mut Source, alpha: &[char], lo: usize, hi: usize) -> String {
     (0..n).map(|_| *src.pick(alpha)).collect()
 }
 
-fn is_func(l: &Lang, w: &str) -> bool {
-    let t = tokenize_record(w, l);
-    t.words.len() != 1 || t.words[0].is_function()
+/// content-ness is decided by the PINNED function-word table, never by the library under test
+/// (a library that starts treating a content word as a function word must not excuse itself)
+fn is_func(lang: &str, w: &str) -> bool {
+    !w.chars().all(|c| c.is_alphanumeric()) || is_pinned_function(lang, w)
 }
 
 /// draw a non-function word (bounded re-draws, counted)
-fn content_word(src: &mut Source, l: &Lang, alpha: &[char], lo: usize, hi: usize, redraws: &mut usize) -> Option<String> {
+fn content_word(src: &mut Source, l: &str, alpha: &[char], lo: usize, hi: usize, redraws: &mut usize) -> Option<String> {
     for _ in 0..6 {
         let w = word_from(src, alpha, lo, hi);
         if !is_func(l, &w) {
@@ -59,14 +58,14 @@ fn content_word(src: &mut Source, l: &Lang, alpha: &[char], lo: usize, hi: usize
 
 pub fn decode(src: &mut Source) -> Box<dyn Case> {
     let lang = gen_lang(src);
-    let l = lang_of(lang);
+    let l = lang;
     let (au, av, ax) = sets(lang);
     let mut redraws = 0usize;
     let swap = src.chance(1, 2);
     let mut insts: Vec<Inst> = Vec::new();
-    let u = content_word(src, &l, &au, 5, 9, &mut redraws);
-    let v = content_word(src, &l, &av, 5, 9, &mut redraws);
-    let x = content_word(src, &l, &ax, 3, 9, &mut redraws);
+    let u = content_word(src, l, &au, 5, 9, &mut redraws);
+    let v = content_word(src, l, &av, 5, 9, &mut redraws);
+    let x = content_word(src, l, &ax, 3, 9, &mut redraws);
     if let (Some(u), Some(v), Some(x)) = (u, v, x) {
         // ratings: uniform, and adversarially ordered in half of the instances
         let ratings = |src: &mut Source| -> (usize, usize) {
@@ -100,7 +99,7 @@ pub fn decode(src: &mut Source) -> Box<dyn Case> {
                 }
             }
             let t: String = e.iter().collect();
-            if t != u && !is_func(&l, &t) {
+            if t != u && !is_func(l, &t) {
                 let r = ratings(src);
                 push("R1 exact>typo", u.clone(), t, u.clone(), r);
             }
@@ -119,7 +118,7 @@ pub fn decode(src: &mut Source) -> Box<dyn Case> {
             let k = 1 + src.below(uc.len() - 1);
             let sep = *src.pick(&[" ", "-"]);
             let split = format!("{}{}{}", uc[..k].iter().collect::<String>(), sep, uc[k..].iter().collect::<String>());
-            if tokenize_record(&split, &l).words.iter().all(|w| !w.is_function()) {
+            if split.split(|c: char| c == ' ' || c == '-').all(|h| !is_pinned_function(lang, h)) {
                 let r = ratings(src);
                 push("R1 exact>split spelling", u.clone(), split, u.clone(), r);
             }
@@ -130,7 +129,7 @@ pub fn decode(src: &mut Source) -> Box<dyn Case> {
             // the longer word back onto u)
             let sfx = if src.chance(1, 2) { word_from(src, &au, 1, 3) } else { src.pick(suffixes(lang)).to_string() };
             let long = format!("{}{}", u, sfx);
-            if !is_func(&l, &long) {
+            if !is_func(l, &long) {
                 let r = ratings(src);
                 push("R3 word>word+suffix (full)", u.clone(), long.clone(), u.clone(), r);
                 // the full word typed and finished (a separator follows)
@@ -161,12 +160,12 @@ pub fn decode(src: &mut Source) -> Box<dyn Case> {
             let sfx = word_from(src, &au, 1, 5);
             let cw = format!("{}{}", f, sfx);
             // the filler must be unrelated to f as well: letters of the filler set that do not occur in f
-            let fnorm: Vec<char> = tokenize_record(&f, &l).chars;
+            let fnorm: Vec<char> = pinned_normalise(lang, &f).chars().collect();
             let ax8: Vec<char> = ax.iter().cloned().filter(|c| !fnorm.contains(c) && !f.contains(*c)).collect();
-            let x8 = if ax8.len() >= 3 { content_word(src, &l, &ax8, 3, 9, &mut redraws) } else { None };
+            let x8 = if ax8.len() >= 3 { content_word(src, l, &ax8, 3, 9, &mut redraws) } else { None };
             // f is a function word because the pinned table of the language says so - the library is
             // NOT asked (a library that forgets one must be caught, not excused)
-            if tokenize_record(&f, &l).words.len() == 1 && !is_func(&l, &cw) {
+            if f.chars().all(|c| c.is_alphanumeric()) && !is_func(l, &cw) {
                 let r = ratings(src);
                 push("R8 f+suffix>f", cw.clone(), f.clone(), f.clone(), r);
                 if let Some(x8) = x8 {
